@@ -115,6 +115,33 @@ def do_strings(tree):
           c.value = 'Reworded: ' + c.value
 
 
+def do_swapif(tree):
+  """if c: A else: B  ->  if not c: B else: A   (only plain if/else, no elif chains)"""
+  for n in ast.walk(tree):
+    if isinstance(n, ast.If) and n.orelse and not (len(n.orelse) == 1 and isinstance(n.orelse[0], ast.If)):
+      n.test = ast.UnaryOp(op=ast.Not(), operand=n.test)
+      n.body, n.orelse = n.orelse, n.body
+
+
+def do_elseify(tree):
+  """if c: ...return/raise ; REST   ->   if c: ...return/raise else: REST"""
+  def term(st):
+    return isinstance(st, (ast.Return, ast.Raise, ast.Continue, ast.Break))
+  for n in ast.walk(tree):
+    for fld in ('body', 'orelse', 'finalbody'):
+      body = getattr(n, fld, None)
+      if not isinstance(body, list) or isinstance(n, ast.If) and fld == 'orelse' and len(body) == 1 and isinstance(body[0], ast.If):
+        continue
+      for i, st in enumerate(body):
+        if isinstance(st, ast.If) and not st.orelse and st.body and term(st.body[-1]) and i + 1 < len(body):
+          rest = body[i + 1:]
+          if any(isinstance(r, (ast.FunctionDef, ast.ClassDef)) for r in rest):
+            continue
+          st.orelse = rest
+          del body[i + 1:]
+          break
+
+
 def main():
   mode = sys.argv[1]
   files = sys.argv[2:] or CORE
@@ -126,6 +153,9 @@ def main():
       tree = ast.parse(open(p).read())
       if mode == 'rename': do_rename(tree)
       elif mode == 'strings': do_strings(tree)
+      elif mode == 'swapif': do_swapif(tree)
+      elif mode == 'elseify':
+        for _ in range(6): do_elseify(tree)
       src = ast.unparse(ast.fix_missing_locations(tree))
       compile(src, p, 'exec')
       open(p, 'w').write(src + '\n')
